@@ -785,6 +785,11 @@ func (b *BlockWise[C]) processReceivedMessage(w *responsewriter.ResponseWriter[C
 		szx = getSzx(szx, maxSzx)
 		// if there is no more then just forward req to next handler
 		if !more {
+			if num > 0 {
+				// the last block of a body whose preceding blocks are not held (late duplicate, replay, lost state):
+				// forwarding it would present a partial body as the complete message.
+				return fmt.Errorf("cannot process last block(%v) without the preceding blocks", num)
+			}
 			next(w, r)
 			return nil
 		}
